@@ -59,6 +59,9 @@ func clauseTags(c *Contract) map[string]bool {
 	if c.HasAssigns {
 		tags["C12"] = true
 		tags["C20"] = true
+		for _, t := range c.FrameTags {
+			tags[t] = true
+		}
 	}
 	tags["C13"] = true // every function under contract takes part in the safety sweep
 	return tags
